@@ -1,25 +1,103 @@
-use ropey::Rope;
-
 use syntax::parser::TextSize;
 
+/// Maps byte offsets to (line, UTF-16 column) pairs and back.
+///
+/// Lines are terminated by `\n`, `\r` or `\r\n`. Offsets are byte offsets into
+/// the text, columns are counted in UTF-16 code units as required by LSP.
 #[derive(Debug, Eq, PartialEq)]
 pub struct LineIndex {
-    rope: Rope,
+    text: String,
+    /// byte offset of the first character of each line
+    line_starts: Vec<TextSize>,
 }
 
 impl LineIndex {
     pub fn new(text: &str) -> Self {
+        let mut line_starts = Vec::new();
+        for_each_line_start(text, |start| line_starts.push(start));
         Self {
-            rope: Rope::from_str(text),
+            text: text.to_string(),
+            line_starts,
         }
     }
 
     pub fn pos_to_line(&self, pos: TextSize) -> usize {
-        self.rope.char_to_line(pos.into())
+        pos_to_line(&self.line_starts, pos)
     }
 
+    /// Start of the given line; lines past the end map to the end of the text.
     pub fn line_to_pos(&self, line: usize) -> TextSize {
-        let pos = self.rope.line_to_char(line);
-        TextSize::try_from(pos).expect("line index out of bounds")
+        line_to_pos(&self.text, &self.line_starts, line)
     }
+
+    /// Zero-based line and UTF-16 column of a byte offset.
+    pub fn pos_to_line_col(&self, pos: TextSize) -> (usize, u32) {
+        pos_to_line_col(&self.text, &self.line_starts, pos)
+    }
+
+    /// Byte offset of a zero-based line and UTF-16 column. A column past the
+    /// end of the line means the end of the line.
+    pub fn line_col_to_pos(&self, line: usize, col: u32) -> TextSize {
+        line_col_to_pos(&self.text, &self.line_starts, line, col)
+    }
+}
+
+/// Calls `f` with the start offset of every line of `text`, in order.
+fn for_each_line_start(text: &str, mut f: impl FnMut(TextSize)) {
+    f(TextSize::from(0));
+    let bytes = text.as_bytes();
+    let mut i = 0;
+    while i < bytes.len() {
+        let b = bytes[i];
+        i += 1;
+        if b == b'\r' && bytes.get(i) == Some(&b'\n') {
+            i += 1;
+        }
+        if b == b'\r' || b == b'\n' {
+            f(TextSize::try_from(i).expect("text is too large"));
+        }
+    }
+}
+
+fn pos_to_line(line_starts: &[TextSize], pos: TextSize) -> usize {
+    // line_starts[0] == 0, so the partition point is at least 1
+    line_starts.partition_point(|&start| start <= pos) - 1
+}
+
+fn line_to_pos(text: &str, line_starts: &[TextSize], line: usize) -> TextSize {
+    match line_starts.get(line) {
+        Some(&start) => start,
+        None => TextSize::of(text),
+    }
+}
+
+fn pos_to_line_col(text: &str, line_starts: &[TextSize], pos: TextSize) -> (usize, u32) {
+    let pos = pos.min(TextSize::of(text));
+    let line = pos_to_line(line_starts, pos);
+    let line_start = usize::from(line_starts[line]);
+    let mut col = 0;
+    for &b in &text.as_bytes()[line_start..usize::from(pos)] {
+        // one unit per character (count its first byte), two for
+        // characters outside the BMP (4-byte sequences)
+        if b & 0xC0 != 0x80 {
+            col += 1;
+        }
+        if b >= 0xF0 {
+            col += 1;
+        }
+    }
+    (line, col)
+}
+
+fn line_col_to_pos(text: &str, line_starts: &[TextSize], line: usize, col: u32) -> TextSize {
+    let mut pos = usize::from(line_to_pos(text, line_starts, line));
+    let mut rest = col;
+    for c in text[pos..].chars() {
+        if rest == 0 || c == '\n' || c == '\r' {
+            break;
+        }
+        rest = rest.saturating_sub(c.len_utf16() as u32);
+        pos += c.len_utf8();
+    }
+    TextSize::try_from(pos).expect("text is too large")
 }
